@@ -91,7 +91,7 @@ func poolFor(roots [][]byte) *x509.CertPool {
 var verifyZones = []*time.Location{time.UTC, time.FixedZone("", 14*3600), time.FixedZone("", -12*3600), time.FixedZone("", 5*3600+45*60)}
 
 func Options(c *world.Case) (*verify.Options, *world.Getter) {
-	g := &world.Getter{R: c.Resp, ReuseBuffer: c.ReuseGetterBuffer}
+	g := &world.Getter{R: c.Resp, ReuseBuffer: c.ReuseGetterBuffer, Seq: c.RespSeq}
 	// the same five instants, expressed in a time zone picked by the case's label: a verdict depends on instants only
 	h := fnv.New32a()
 	h.Write([]byte(c.Class + "|" + c.Param))
